@@ -613,7 +613,46 @@ RULE = ("small: EVERY model with T <= 3 epochs, 1..2 states per epoch and all li
         "Non-trivial: T >= 2, some epoch with >= 2 states and the per-epoch greedy argmax of P (LP) is not optimal (for some model of the case). "
         "Distinct = hash of the case.")
 
+# --- wide epochs: hundreds of candidate states in one epoch (size is a dimension of "1..S candidate states") -------------
+def _hv(a, b, c, mod=9973):
+    """tie-free pseudo-random likelihood in (0, 1]: a fixed integer hash, so the case stays a few numbers"""
+    return ((a * 7919 + b * 104729 + c * 1299709 + 12345) % mod + 1) / float(mod)
+
+
+def enum_wide(tier):
+    wide = [255, 256, 257, 300, 600] if tier == "quick" else [127, 128, 129, 255, 256, 257, 300, 511, 512, 513, 600, 1000, 1025]
+    for S in wide:
+        for k in range(3 if tier == "quick" else 8):
+            for rest in ([1], [2], [3], [2, 2]):
+                for pos in range(len(rest) + 1):            # the wide epoch first, in the middle, last
+                    shape = rest[:pos] + [S] + rest[pos:]
+                    for best in ("any", "high-index"):
+                        yield {"shape": shape, "k": k, "best": best}
+
+
+def body_wide(case):
+    shape, k = case["shape"], case["k"]
+    if len(shape) < 2 or max(shape) * min(shape) > 10 ** 6:
+        return {"undef": True}
+    wide = shape.index(max(shape))
+    P = [[_hv(e, l, k) for l in range(n)] for e, n in enumerate(shape)]
+    if case.get("best") == "high-index":
+        # the likeliest candidates of the wide epoch sit at the END of its list (a list sorted by distance, worst first)
+        P[wide] = sorted(P[wide])
+    Q = [[[_hv(e * 1000 + l, m, k + 17) for m in range(shape[e + 1])] for l in range(shape[e])] for e in range(len(shape) - 1)]
+    states = [[(e, l) for l in range(n)] for e, n in enumerate(shape)]
+    obs = [[e + 10] for e in range(len(shape))]
+    info = check_model(states, P, Q, obs, 0, 0, with_log=True)
+    info["cls"] = [c for c in info["cls"] if not c.startswith("S=")] + ["wide=%d" % max(shape), "wide-epoch-%s" % (
+        "first" if wide == 0 else "last" if wide == len(shape) - 1 else "middle"), "best-" + case.get("best", "any")]
+    info["nt"] = True
+    return info
+
+
 SUBCHECKS = [
+    SubCheck("wide", body_wide, enum=enum_wide, qshards=6, tshards=16,
+             rule="models with one epoch of 255..600 (thorough 127..1025) candidate states next to epochs of 1..3, tie-free hashed "
+                  "likelihoods, the likeliest candidates anywhere / at the end of the list; enumeration of all sequences"),
     SubCheck("small", body_small, enum=enum_small, qshards=10, tshards=16,
              rule="all models T<=3, <=2 states/epoch, likelihoods {0,1/2,1}"),
     SubCheck("models", body_model, strategy=strat_model, quick=6000, thorough=240000, qshards=6, tshards=16,
